@@ -190,12 +190,39 @@ func genEcdsa(thorough bool, emit func(Case)) {
 		}
 	}
 
+	// ---- chosen s: with the secret known, any s is reachable by choosing the
+	// message e = s*k - r*d; gives s + n that still fits 32 bytes ----
+	nonces := []*big.Int{bi(1), bi(2), modN(hashInt("verif C03 nonce"))}
+	targets := map[string]*big.Int{"1": bi(1), "2": bi(2), "3": bi(3), "2^64": new(big.Int).Lsh(bi(1), 64), "2^128": new(big.Int).Lsh(bi(1), 128),
+		"(n-1)/2": refsecp.HalfN, "(n+1)/2": add(refsecp.HalfN, bi(1)), "n-2": sub(bigN, bi(2)), "n-1": sub(bigN, bi(1))}
+	for di, d := range secs {
+		q := refsecp.MulG(d)
+		pub := keyEnc(q, 'c')
+		for ki, k := range nonces {
+			R := refsecp.MulG(k)
+			r := modN(R.X)
+			for _, tn := range sortedKeys(targets) {
+				s := targets[tn]
+				e := modN(sub(mulN(s, k), mulN(r, d)))
+				tag := fmt.Sprintf("key#%d nonce#%d s=%s", di, ki, tn)
+				emit(ecdsaCase("ecdsa/chosen-s", tag+" (valid)", pub, refsig.SerializeDER(r, s), b32(e)))
+				emit(ecdsaCase("ecdsa/chosen-s", tag+" s:=s+n", pub, refsig.SerializeDER(r, add(s, bigN)), b32(e)))
+				emit(ecdsaCase("ecdsa/chosen-s", tag+" s:=s+2n", pub, refsig.SerializeDER(r, add(s, add(bigN, bigN))), b32(e)))
+				emit(ecdsaCase("ecdsa/chosen-s", tag+" r:=r+n", pub, refsig.SerializeDER(add(r, bigN), s), b32(e)))
+				if add(e, bigN).Cmp(two56) < 0 {
+					emit(ecdsaCase("ecdsa/chosen-s", tag+" (valid, msg:=e+n)", pub, refsig.SerializeDER(r, s), b32(add(e, bigN))))
+				}
+			}
+		}
+	}
+
 	// ---- every single-bit flip of key, signature, message ----
 	for _, b := range bases {
 		encs := []byte{'c', 'u'}
 		if thorough {
 			encs = []byte{'c', 'u', 'h'}
-		} else if !(b.mi == 6 || b.mi == 4) { // quick: messages "hash" and n+1
+		} else if !((b.mi == 6 && (b.di == 0 || b.di == 3 || b.di == 4)) || (b.mi == 4 && b.di == 2)) {
+			// quick: keys 1, (n-1)/2, "random" with the hash message; key n-1 with message n+1
 			continue
 		}
 		svals := []*big.Int{b.s}
@@ -237,32 +264,6 @@ func genEcdsa(thorough bool, emit func(Case)) {
 		emit(ecdsaCase("ecdsa/scalar-rs", fmt.Sprintf("key#%d msg#%d r:=0 s:=0", b.di, b.mi), pub, refsig.SerializeDER(bi(0), bi(0)), b.msg))
 		emit(ecdsaCase("ecdsa/scalar-rs", fmt.Sprintf("key#%d msg#%d r:=n s:=n", b.di, b.mi), pub, refsig.SerializeDER(bigN, bigN), b.msg))
 		emit(ecdsaCase("ecdsa/scalar-rs", fmt.Sprintf("key#%d msg#%d r:=r+n s:=s+n", b.di, b.mi), pub, refsig.SerializeDER(add(b.r, bigN), add(b.s, bigN)), b.msg))
-	}
-
-	// ---- chosen s: with the secret known, any s is reachable by choosing the
-	// message e = s*k - r*d; gives s + n that still fits 32 bytes ----
-	nonces := []*big.Int{bi(1), bi(2), modN(hashInt("verif C03 nonce"))}
-	targets := map[string]*big.Int{"1": bi(1), "2": bi(2), "3": bi(3), "2^64": new(big.Int).Lsh(bi(1), 64), "2^128": new(big.Int).Lsh(bi(1), 128),
-		"(n-1)/2": refsecp.HalfN, "(n+1)/2": add(refsecp.HalfN, bi(1)), "n-2": sub(bigN, bi(2)), "n-1": sub(bigN, bi(1))}
-	for di, d := range secs {
-		q := refsecp.MulG(d)
-		pub := keyEnc(q, 'c')
-		for ki, k := range nonces {
-			R := refsecp.MulG(k)
-			r := modN(R.X)
-			for _, tn := range sortedKeys(targets) {
-				s := targets[tn]
-				e := modN(sub(mulN(s, k), mulN(r, d)))
-				tag := fmt.Sprintf("key#%d nonce#%d s=%s", di, ki, tn)
-				emit(ecdsaCase("ecdsa/chosen-s", tag+" (valid)", pub, refsig.SerializeDER(r, s), b32(e)))
-				emit(ecdsaCase("ecdsa/chosen-s", tag+" s:=s+n", pub, refsig.SerializeDER(r, add(s, bigN)), b32(e)))
-				emit(ecdsaCase("ecdsa/chosen-s", tag+" s:=s+2n", pub, refsig.SerializeDER(r, add(s, add(bigN, bigN))), b32(e)))
-				emit(ecdsaCase("ecdsa/chosen-s", tag+" r:=r+n", pub, refsig.SerializeDER(add(r, bigN), s), b32(e)))
-				if add(e, bigN).Cmp(two56) < 0 {
-					emit(ecdsaCase("ecdsa/chosen-s", tag+" (valid, msg:=e+n)", pub, refsig.SerializeDER(r, s), b32(add(e, bigN))))
-				}
-			}
-		}
 	}
 
 	// ---- encodings of a valid (r, s): forms only a lax parser reads, broken forms ----
